@@ -296,6 +296,7 @@ structure Case where
   ins : List Ty := []
   prog : Option Prog := none
   built : Option XState := none
+  marked : Bool := false       -- case line carries `malformed`
   useX : Bool := false         -- the program has integer-literal statements: `runX` / `buildX`; otherwise the proven `run` / `build`
   text : Array String := #[]
   reported : Bool := false     -- at most one DIFF and one PROPFAIL line per case
@@ -325,7 +326,7 @@ partial def loop (h : IO.FS.Stream) (d : D) (c : Case) : IO D := do
     let d := if marks.contains "chains" then { d with hist := d.hist.bump "pattern:else-chains" } else d
     let d := if marks.contains "enable" then { d with hist := d.hist.bump "pattern:enable-scopes" } else d
     let d := if marks.contains "intlit" then { d with hist := d.hist.bump "pattern:integer-literal-variables" } else d
-    loop h { d with cases := d.cases + 1 } { id := id }
+    loop h { d with cases := d.cases + 1 } { id := id, marked := marks.contains "malformed" }
   | "ins" =>
     let ins := (k.t.toList.drop 1).map parseTy
     let (ss, hist) ← parseStmts h d.hist 0
@@ -362,7 +363,12 @@ partial def loop (h : IO.FS.Stream) (d : D) (c : Case) : IO D := do
       if runs then
         IO.println s!"PROPFAIL case={c.id} sig=frontend-rejects-program-of-the-class stage=build inputs=[all zero] msg=[{k1.t.getD 1 ""}]"
         d := { d with propfails := d.propfails + 1 }
-    else d := { d with rejected := d.rejected + 1 }
+    else if c.marked then d := { d with rejected := d.rejected + 1 }
+    else
+      -- both sides reject a program the generator did not break on purpose: a generator slip (wrong variable index / type) would
+      -- otherwise hide behind the malformed stream
+      IO.println s!"DIFF case={c.id} what=frontend-and-model-reject-a-program-not-marked-malformed msg={k1.t.getD 1 ""}"
+      d := { d with diffs := d.diffs + 1 }
     loop h d { c with reported := true }
   | "crash" =>
     IO.println s!"DIFF case={c.id} what=harness-crash msg={" ".intercalate (k.t.toList.drop 1)}"
